@@ -26,6 +26,16 @@ use std::sync::atomic::{AtomicBool, AtomicI32, AtomicU64, Ordering};
 use std::sync::{Arc, Mutex};
 use std::time::Instant;
 
+static SCRATCH: std::sync::OnceLock<PathBuf> = std::sync::OnceLock::new();
+
+/// Machinery failure (exit 2) after removing the scratch directory.
+fn die(msg: &str) -> ! {
+    if let Some(s) = SCRATCH.get() {
+        let _ = std::fs::remove_dir_all(s);
+    }
+    mc_core::report::machinery_failure(msg)
+}
+
 pub fn res_json(r: &Res) -> Value {
     match r {
         Res::Ok(d) => json!({"ok": format!("{d:016x}")}),
@@ -51,7 +61,11 @@ struct Spawner {
 
 impl Spawner {
     fn spawn(&self, journal: &Path) -> Proc {
-        std::fs::write(journal, J_IDLE.to_le_bytes()).unwrap_or_else(|e| mc_core::report::machinery_failure(&format!("cannot write journal {journal:?}: {e}")));
+        self.spawn_with(journal, false)
+    }
+    /// `quiet`: discard the worker's stderr (self-test workers die on purpose).
+    fn spawn_with(&self, journal: &Path, quiet: bool) -> Proc {
+        std::fs::write(journal, J_IDLE.to_le_bytes()).unwrap_or_else(|e| die(&format!("cannot write journal {journal:?}: {e}")));
         let mut child = Command::new(&self.exe)
             .arg("--c09-worker")
             .arg(self.tier)
@@ -59,15 +73,15 @@ impl Spawner {
             .arg(self.digest.to_string())
             .stdin(Stdio::piped())
             .stdout(Stdio::piped())
-            .stderr(Stdio::inherit())
+            .stderr(if quiet { Stdio::null() } else { Stdio::inherit() })
             .spawn()
-            .unwrap_or_else(|e| mc_core::report::machinery_failure(&format!("cannot spawn worker: {e}")));
+            .unwrap_or_else(|e| die(&format!("cannot spawn worker: {e}")));
         let stdin = child.stdin.take().unwrap();
         let mut stdout = BufReader::new(child.stdout.take().unwrap());
         let mut line = String::new();
         if stdout.read_line(&mut line).is_err() || line.trim() != "READY" {
             let st = child.wait();
-            mc_core::report::machinery_failure(&format!("worker did not start: {line:?} {st:?}"));
+            die(&format!("worker did not start: {line:?} {st:?}"));
         }
         Proc { child, stdin, stdout }
     }
@@ -106,7 +120,7 @@ fn request(p: &mut Proc, line: &str) -> Result<Value, String> {
             _ => "unknown".into(),
         });
     }
-    serde_json::from_str(reply.trim()).map_err(|e| mc_core::report::machinery_failure(&format!("worker reply is not JSON ({e}): {reply}")))
+    serde_json::from_str(reply.trim()).map_err(|e| die(&format!("worker reply is not JSON ({e}): {reply}")))
 }
 
 // ------------------------------------------------------------------ aggregate
@@ -251,8 +265,71 @@ struct Batch {
 
 // ------------------------------------------------------------------ shrinking
 
-/// Greedy chunk removal (ddmin flavour) with a deterministic call budget.
+/// Shrinks a failing input under a deterministic call budget: rounds of
+/// (greedy chunk removal, ddmin flavour; rewriting every CBOR-looking head
+/// with a 1/2/4/8-byte argument to its shortest form; zeroing bytes) until a
+/// round changes nothing. The result still satisfies `pred`.
 fn shrink(mut cur: Vec<u8>, pred: &mut dyn FnMut(&[u8]) -> bool, budget: &mut u32) -> Vec<u8> {
+    loop {
+        let before = cur.clone();
+        cur = shrink_remove(cur, pred, budget);
+        // shortest-form heads
+        let mut i = 0;
+        while i < cur.len() && *budget > 0 {
+            let (major, ai) = (cur[i] & 0xe0, cur[i] & 0x1f);
+            let w = match ai {
+                24 => 1,
+                25 => 2,
+                26 => 4,
+                27 => 8,
+                _ => 0,
+            };
+            if w > 0 && major != 0xe0 && i + w < cur.len() {
+                let v = cur[i + 1..=i + w].iter().fold(0u64, |a, b| (a << 8) | *b as u64);
+                let mut head = vec![];
+                if v < 24 {
+                    head.push(major | v as u8);
+                } else if v < 256 {
+                    head.extend([major | 24, v as u8]);
+                } else if v < 65536 {
+                    head.extend([major | 25, (v >> 8) as u8, v as u8]);
+                } else {
+                    head.clear();
+                }
+                if !head.is_empty() && head.len() < 1 + w {
+                    let mut cand = cur[..i].to_vec();
+                    cand.extend(&head);
+                    cand.extend(&cur[i + 1 + w..]);
+                    *budget -= 1;
+                    if pred(&cand) {
+                        cur = cand;
+                        continue;
+                    }
+                }
+            }
+            i += 1;
+        }
+        // prefer 0x00 where the failure persists
+        for i in 0..cur.len() {
+            if *budget == 0 {
+                break;
+            }
+            if cur[i] != 0 {
+                let old = cur[i];
+                cur[i] = 0;
+                *budget -= 1;
+                if !pred(&cur) {
+                    cur[i] = old;
+                }
+            }
+        }
+        if cur == before || *budget == 0 {
+            return cur;
+        }
+    }
+}
+
+fn shrink_remove(mut cur: Vec<u8>, pred: &mut dyn FnMut(&[u8]) -> bool, budget: &mut u32) -> Vec<u8> {
     if cur.is_empty() {
         return cur;
     }
@@ -283,20 +360,6 @@ fn shrink(mut cur: Vec<u8>, pred: &mut dyn FnMut(&[u8]) -> bool, budget: &mut u3
             size /= 2;
         }
     }
-    // canonicalise the remaining bytes: prefer 0x00 where the failure persists
-    for i in 0..cur.len() {
-        if *budget == 0 {
-            break;
-        }
-        if cur[i] != 0 {
-            let old = cur[i];
-            cur[i] = 0;
-            *budget -= 1;
-            if !pred(&cur) {
-                cur[i] = old;
-            }
-        }
-    }
     cur
 }
 
@@ -318,7 +381,7 @@ impl Prober<'_> {
             Err(sig) => {
                 self.proc = None;
                 if read_journal(&self.journal) != J_PROBE {
-                    mc_core::report::machinery_failure(&format!("probe worker died ({sig}) outside a call"));
+                    die(&format!("probe worker died ({sig}) outside a call"));
                 }
                 Err(sig)
             }
@@ -342,10 +405,11 @@ pub fn run(ctx: Ctx) -> ! {
     let tuning = Tuning { thorough: ctx.thorough };
     let world = Arc::new(World::new(tuning));
     let digest = seeds::digest(&world.seeds);
-    let exe = std::env::current_exe().unwrap_or_else(|e| mc_core::report::machinery_failure(&format!("current_exe: {e}")));
+    let exe = std::env::current_exe().unwrap_or_else(|e| die(&format!("current_exe: {e}")));
     let spawner = Spawner { exe, tier: ctx.tier(), digest };
     let scratch = std::env::temp_dir().join(format!("mc-decoders-c09-{}", std::process::id()));
-    std::fs::create_dir_all(&scratch).unwrap_or_else(|e| mc_core::report::machinery_failure(&format!("scratch dir: {e}")));
+    std::fs::create_dir_all(&scratch).unwrap_or_else(|e| die(&format!("scratch dir: {e}")));
+    let _ = SCRATCH.set(scratch.clone());
 
     if let Some(path) = ctx.replay.clone() {
         replay(&ctx, &world, &spawner, &scratch, &path);
@@ -375,6 +439,7 @@ pub fn run(ctx: Ctx) -> ! {
                 eprintln!("   raw MultiEraBlock::decode: {:.2} us/call", t.elapsed().as_secs_f64() * 1e6 / n as f64);
             }
         }
+        let _ = std::fs::remove_dir_all(&scratch);
         std::process::exit(0);
     }
     if std::env::var("C09_STATS").is_ok() {
@@ -388,7 +453,25 @@ pub fn run(ctx: Ctx) -> ! {
             let sq: f64 = v.iter().map(|&n| (n as f64) * (n as f64)).sum();
             eprintln!("{k}: n={} sum={} sumsq={:.3e} min={} med={} max={} >4k={}", v.len(), v.iter().sum::<usize>(), sq, v[0], v[v.len() / 2], v[v.len() - 1], v.iter().filter(|&&n| n > 4096).count());
         }
+        let _ = std::fs::remove_dir_all(&scratch);
         std::process::exit(0);
+    }
+
+    // ---- machinery self-test: the three ways a decoder can take the process
+    // down must be observed as a dead worker attributed to the journaled call
+    let mut selftest = BTreeMap::new();
+    for what in ["abort", "overflow", "alloc"] {
+        let journal = scratch.join(format!("journal-selftest-{what}"));
+        let mut p = spawner.spawn_with(&journal, true);
+        match request(&mut p, &format!("T {what}")) {
+            Err(sig) if !sig.starts_with("exit") && read_journal(&journal) == J_PROBE => {
+                selftest.insert(what.to_string(), sig);
+            }
+            other => {
+                let _ = std::fs::remove_dir_all(&scratch);
+                die(&format!("self-test '{what}': the worker was expected to die inside a journaled call, got {other:?}"));
+            }
+        }
     }
 
     // ---- units
@@ -511,7 +594,7 @@ pub fn run(ctx: Ctx) -> ! {
                     busy[w].0.store(0, Ordering::SeqCst);
                     match r {
                         Ok(v) => {
-                            let Some(res) = BatchResult::from_json(&v) else { mc_core::report::machinery_failure(&format!("malformed batch result {v}")) };
+                            let Some(res) = BatchResult::from_json(&v) else { die(&format!("malformed batch result {v}")) };
                             agg.lock().unwrap().merge(b.unit, &unit_family(&unit), b.hi - b.lo, res);
                         }
                         Err(mut sig) => {
@@ -520,13 +603,13 @@ pub fn run(ctx: Ctx) -> ! {
                                 sig = "timeout".into();
                             }
                             if sig.starts_with("exit") {
-                                mc_core::report::machinery_failure(&format!("worker exited ({sig}) during {}", world.describe_unit(&unit)));
+                                die(&format!("worker exited ({sig}) during {}", world.describe_unit(&unit)));
                             }
                             let j = read_journal(&journal);
                             if j == J_IDLE || j == J_PROBE {
                                 idle_deaths += 1;
                                 if idle_deaths > 3 {
-                                    mc_core::report::machinery_failure(&format!("worker keeps dying ({sig}) outside any call"));
+                                    die(&format!("worker keeps dying ({sig}) outside any call"));
                                 }
                                 queue.lock().unwrap().push_front(b);
                                 continue;
@@ -544,7 +627,7 @@ pub fn run(ctx: Ctx) -> ! {
                                 continue;
                             }
                             if j < b.lo || j >= b.hi {
-                                mc_core::report::machinery_failure(&format!("journal value {j} outside the batch {b:?}"));
+                                die(&format!("journal value {j} outside the batch {b:?}"));
                             }
                             let entry = world.materialise(&unit, j).map(|m| m.entry).unwrap_or(0);
                             Agg::add(&mut a.viol, format!("abort:{sig}:{}", world.cat[entry].name), 1, (b.unit, j), entry, format!("worker killed by {sig}"), String::new());
@@ -569,7 +652,7 @@ pub fn run(ctx: Ctx) -> ! {
         }
         for h in handles {
             if h.join().is_err() {
-                mc_core::report::machinery_failure("a worker handler thread panicked");
+                die("a worker handler thread panicked");
             }
         }
         done.store(true, Ordering::SeqCst);
@@ -600,7 +683,8 @@ pub fn run(ctx: Ctx) -> ! {
     }
     let sweep_s = t0.elapsed().as_secs_f64();
 
-    if only.is_some() {
+    if only.is_some() || std::env::var("C09_INJECT_ABORT").is_ok() {
+        eprintln!("worker deaths: {}", agg.deaths);
         for (k, v) in &agg.per_family {
             eprintln!("{k}: evaluations={} differs={} cpu={:.1}s", v.0, v.1, v.2 as f64 / 1e6);
         }
@@ -616,21 +700,22 @@ pub fn run(ctx: Ctx) -> ! {
             eprintln!("DIAG {k}: {v:?}");
         }
         let _ = std::fs::remove_dir_all(&scratch);
-        mc_core::report::machinery_failure(&format!("C09_ONLY set: partial sweep ({:.1}s), no verdict", sweep_s));
+        die(&format!("C09_ONLY set: partial sweep ({:.1}s), no verdict", sweep_s));
     }
 
     // ---- completeness / vacuity guards
     if agg.calls_done != total_calls {
         let _ = std::fs::remove_dir_all(&scratch);
-        mc_core::report::machinery_failure(&format!("covered {} of {} call slots", agg.calls_done, total_calls));
+        die(&format!("covered {} of {} call slots", agg.calls_done, total_calls));
     }
     let mut problems = vec![];
+    let seeded: BTreeSet<usize> = world.seeds.iter().flat_map(|s| s.entries.iter().copied()).collect();
     for (i, e) in world.cat.iter().enumerate() {
         let st = agg.per_entry.get(&i).cloned().unwrap_or_default();
         if st.calls == 0 {
             problems.push(format!("entry point {} never called", e.name));
-        } else if st.ok == 0 && !agg.base_ok.contains(&i) && !e.name.contains("unsupported") {
-            problems.push(format!("entry point {} never returned a value", e.name));
+        } else if seeded.contains(&i) && !agg.base_ok.contains(&i) && !e.name.contains("unsupported") {
+            problems.push(format!("entry point {} returned a value for none of its unfaulted seeds", e.name));
         } else if st.err == 0 {
             problems.push(format!("entry point {} never returned an error", e.name));
         }
@@ -642,7 +727,7 @@ pub fn run(ctx: Ctx) -> ! {
     }
     if !problems.is_empty() {
         let _ = std::fs::remove_dir_all(&scratch);
-        mc_core::report::machinery_failure(&format!("vacuous sweep: {}", problems.join("; ")));
+        die(&format!("vacuous sweep: {}", problems.join("; ")));
     }
 
     // ---- witnesses: reconstruct, shrink (one per defect and entry point), report
@@ -777,9 +862,11 @@ pub fn run(ctx: Ctx) -> ! {
         "entry_points" => world.cat.len(),
         "thinning" => thinning_text(&tuning),
         "thinned_seeds" => thinned.len(),
+        "seeds_not_swept_in_this_tier" => world.seeds.iter().filter(|s| tuning.plan(s).offsets.is_empty()).count(),
         "thinned_seeds_sample" => thinned.iter().take(12).cloned().collect::<Vec<_>>(),
         "worker_processes" => n_workers,
         "worker_deaths" => agg.deaths,
+        "selftest_worker_death_signals" => selftest,
         "batches" => agg.batches,
         "sweep_wall_s" => sweep_s,
         "accessor_diagnostics" => diagnostics,
@@ -799,7 +886,7 @@ pub fn run(ctx: Ctx) -> ! {
 }
 
 fn thinning_text(t: &Tuning) -> String {
-    let common = "Splices: ordered pairs of the splice representatives of a family (all seeds when the family has at most `cap` of them, cap = 40, addr-text 12 quick / 24 thorough; otherwise the first seed of each distinct (length, first byte) class up to the cap); blocks cut out of chunk files are not spliced; cut points = starts and ends of all CBOR items up to nesting depth d (block 2; tx 3 quick / 4 thorough; header 3 quick / unbounded thorough; outputs and messages unbounded), every byte offset for addresses and address texts.";
+    let common = "Splices: ordered pairs of the splice representatives of a family (all seeds when the family has at most `cap` of them, cap = 40, addr-text 12 quick / 24 thorough; otherwise the first seed of each distinct (length, first byte) class up to the cap); blocks cut out of chunk files are not spliced; cut points = starts and ends of all CBOR items up to nesting depth d (block 2; tx 2 quick / 4 thorough; header 3 quick / unbounded thorough; outputs and messages unbounded), every byte offset for addresses and address texts.";
     if t.thorough {
         format!(
             "thorough: every seed; every offset of every seed up to {} bytes (i.e. all but genesis.block) gets truncation, 8 bit flips, deletion, duplication; the 28-value substitution alphabet at every offset of seeds <= {} bytes and at item-boundary offsets (every head byte of every CBOR item, first/last payload byte of every string, break bytes) of larger ones; genesis.block (648 KiB): all fault kinds at item-boundary offsets only. Accessor digest of returned values: every fault of seeds <= {} bytes, faults at item-boundary offsets of larger ledger seeds (every 16th for genesis.block), never for messages > {} bytes. {common}",
@@ -868,7 +955,7 @@ fn make_samples(world: &World, units: &[Unit]) -> Vec<Value> {
         for call in [n / 3, n / 2 + 7] {
             let call = call.min(n - 1);
             if let Some(m) = world.materialise(u, call) {
-                let res = world.probe(m.entry, &m.bytes);
+                let res = (world.cat[m.entry].call)(&m.bytes, false).res;
                 out.push(json!({
                     "unit": world.describe_unit(u), "call_index": call, "fault": m.desc, "entry_point": world.cat[m.entry].name,
                     "input_len": m.bytes.len(),
@@ -886,10 +973,10 @@ fn make_samples(world: &World, units: &[Unit]) -> Vec<Value> {
 }
 
 fn replay(ctx: &Ctx, world: &World, spawner: &Spawner, scratch: &Path, path: &Path) -> ! {
-    let v: Value = std::fs::read_to_string(path).ok().and_then(|s| serde_json::from_str(&s).ok()).unwrap_or_else(|| mc_core::report::machinery_failure("unreadable replay file"));
+    let v: Value = std::fs::read_to_string(path).ok().and_then(|s| serde_json::from_str(&s).ok()).unwrap_or_else(|| die("unreadable replay file"));
     let case = v.get("case").unwrap_or(&v);
-    let name = case.get("entry_point").and_then(|x| x.as_str()).unwrap_or_else(|| mc_core::report::machinery_failure("replay: no entry_point"));
-    let input = hex::decode(case.get("input_hex").and_then(|x| x.as_str()).unwrap_or("")).unwrap_or_else(|_| mc_core::report::machinery_failure("replay: bad input_hex"));
+    let name = case.get("entry_point").and_then(|x| x.as_str()).unwrap_or_else(|| die("replay: no entry_point"));
+    let input = hex::decode(case.get("input_hex").and_then(|x| x.as_str()).unwrap_or("")).unwrap_or_else(|_| die("replay: bad input_hex"));
     let entry = crate::entries::find(&world.cat, name);
     let mut pr = Prober { sp: spawner, journal: scratch.join("journal-replay"), proc: None };
     let r = pr.probe(entry, &input);
